@@ -118,6 +118,33 @@ pub fn cases(_tier: &str, _seed: u64) -> Vec<Case> {
                     ("rcode", res(header_buffer::rcode(&b), |x| (x as u16).to_string())),
                     ("opcode", res(header_buffer::opcode(&b), |x| (x as u16).to_string())),
                 ];
+                // the peeks are meant for a received datagram: the same header followed by a body (a question, a few bytes,
+                // a full 512-byte message) answers the same
+                if w % 8 == 3 {
+                    let mut long = b.clone();
+                    let extra = [1usize, 5, 17, 500][(w as usize / 8) % 4];
+                    long.extend((0..extra).map(|k| (k as u8).wrapping_mul(37) ^ w as u8));
+                    let hl = text::hex(&long);
+                    let again: [(&str, String); 7] = [
+                        ("id", res(header_buffer::id(&long), |x| x.to_string())),
+                        ("questions", res(header_buffer::questions(&long), |x| x.to_string())),
+                        ("answers", res(header_buffer::answers(&long), |x| x.to_string())),
+                        ("name_servers", res(header_buffer::name_servers(&long), |x| x.to_string())),
+                        ("additional_records", res(header_buffer::additional_records(&long), |x| x.to_string())),
+                        ("rcode", res(header_buffer::rcode(&long), |x| (x as u16).to_string())),
+                        ("opcode", res(header_buffer::opcode(&long), |x| (x as u16).to_string())),
+                    ];
+                    for ((name, out), (_, short)) in again.iter().zip(peeks.iter()) {
+                        let mut c = Case::new(format!("peek {} {} 0", name, hl), out.clone()).tag("peek-long");
+                        if out != short { c = c.fail("peek-long-differs", format!("word {:#06x}: {} of the header followed by {} more bytes is {}, of the header alone {}", w, name, extra, out, short)); }
+                        v.push(c);
+                    }
+                    let f0 = flags[(w as usize / 8) % flags.len()];
+                    let (a, bb) = (res(header_buffer::has_flags(&long, f0), |x| (x as u8).to_string()), res(header_buffer::has_flags(&b, f0), |x| (x as u8).to_string()));
+                    let mut c = Case::new(format!("peek has_flags {} {}", hl, f0.bits()), a.clone()).tag("peek-long");
+                    if a != bb { c = c.fail("peek-long-differs", format!("word {:#06x}: has_flags differs between the header alone and the header with a body", w)); }
+                    v.push(c);
+                }
                 for (name, out) in peeks {
                     v.push(Case::new(format!("peek {} {} 0", name, h), out).tag("peek"));
                 }
@@ -286,6 +313,49 @@ pub fn cases(_tier: &str, _seed: u64) -> Vec<Case> {
                 let mut c = Case::new(format!("api flush {}", text::rr(r)), text::rr(&f)).tag("api");
                 if !(f.cache_flush && f.name == r.name && f.class == r.class && f.ttl == r.ttl && f.rdata == r.rdata) { c = c.fail("to-cache-flush", "to_cache_flush_record changes more than the cache-flush bit".into()); }
                 v.push(c);
+            }
+        }
+    }
+    // build side with entries: id (also after set_id), flags, opcode, rcode and the four counts land at their RFC 1035
+    // positions whatever the sections hold, through both writers; judged on the 12 header bytes alone
+    {
+        use simple_dns::rdata::{RData, A};
+        let mut k = 0u32;
+        for counts in [[1usize, 0, 0, 0], [0, 1, 0, 0], [0, 0, 1, 0], [0, 0, 0, 1], [2, 3, 4, 5], [0, 300, 0, 2], [256, 257, 1, 255], [3, 0, 0, 0]] {
+            for opc in [OPCODE::StandardQuery, OPCODE::InverseQuery, OPCODE::ServerStatusRequest, OPCODE::Notify, OPCODE::Update] {
+                for rc in [RCODE::NoError, RCODE::FormatError, RCODE::Refused, RCODE::NOTZONE, RCODE::Reserved] {
+                    k += 1;
+                    let id0 = (k as u16).wrapping_mul(2749);
+                    let mut p = if k % 2 == 0 { Packet::new_query(id0) } else { Packet::new_reply(id0) };
+                    let mut fl = PacketFlag::empty();
+                    for (i, f) in flags.iter().enumerate() { if i > 0 && (k >> i) & 1 == 1 { fl |= *f; } }
+                    p.set_flags(fl);
+                    *p.opcode_mut() = opc;
+                    *p.rcode_mut() = rc;
+                    let n = Name::new_unchecked("count.example");
+                    for _ in 0..counts[0] { p.questions.push(Question::new(n.clone(), TYPE::A.into(), CLASS::IN.into(), false)); }
+                    for (sec, c) in counts.iter().enumerate().skip(1) {
+                        for j in 0..*c { let r = ResourceRecord::new(n.clone(), CLASS::IN, 1, RData::A(A { address: j as u32 })); match sec { 1 => p.answers.push(r), 2 => p.name_servers.push(r), _ => p.additional_records.push(r) } }
+                    }
+                    let id = if k % 3 == 0 { let nid = id0 ^ 0x5A5A; p.set_id(nid); nid } else { id0 };
+                    let mut c = Case::oracle_only().tag("build-with-entries");
+                    for (how, bytes) in [("plain", p.build_bytes_vec()), ("compressed", p.build_bytes_vec_compressed())] {
+                        match bytes {
+                            Ok(b) if b.len() >= 12 => {
+                                let s3 = rfc(u16::from_be_bytes([b[2], b[3]]));
+                                let want_flags = [(k % 2 == 1) as u16, (fl.contains(flags[1])) as u16, fl.contains(flags[2]) as u16, fl.contains(flags[3]) as u16, fl.contains(flags[4]) as u16, fl.contains(flags[5]) as u16, fl.contains(flags[6]) as u16];
+                                let got_flags = [s3.qr, s3.aa, s3.tc, s3.rd, s3.ra, s3.ad, s3.cd];
+                                let got_counts: Vec<usize> = (0..4).map(|i| u16::from_be_bytes([b[4 + 2 * i], b[5 + 2 * i]]) as usize).collect();
+                                if u16::from_be_bytes([b[0], b[1]]) != id { c = c.fail("header-written", format!("{}: id {:#06x} written as {:#06x}", how, id, u16::from_be_bytes([b[0], b[1]]))); }
+                                else if got_flags != want_flags || s3.z != 0 { c = c.fail("header-written", format!("{}: flags {:?} written as {:?}", how, want_flags, got_flags)); }
+                                else if s3.opcode != opc as u16 || s3.rcode != (rc as u16 & 0xF) { c = c.fail("header-written", format!("{}: opcode {:?} rcode {:?} written as {} {}", how, opc, rc, s3.opcode, s3.rcode)); }
+                                else if got_counts[..] != counts[..] { c = c.fail("header-written", format!("{}: counts {:?} written as {:?}", how, counts, got_counts)); }
+                            }
+                            _ => { c = c.fail("header-written", format!("{}: a packet with counts {:?} is not serialised", how, counts)); }
+                        }
+                    }
+                    v.push(c);
+                }
             }
         }
     }
